@@ -57,6 +57,11 @@ class pcomp(object):
         #
         evals, evecs = eigh(self._c)
         #
+        # A covariance or correlation matrix is positive semi-definite:
+        # negative eigenvalues are round-off and would give NaN coefficients.
+        #
+        evals[evals < 0] = 0
+        #
         # Sort eigenvalues in descending order
         #
         ie = evals.argsort()[::-1]
